@@ -39,7 +39,7 @@ func verifMarkExprs() []string {
 		"l[*]", "l[*].x", "o[*].x", "o.*.x", "[a, b][*]", "{x = a}[*].x",
 		"!a", "!(a && b)", "(a || b) && c", "a ? (b || c) : (b && c)",
 		"[for v in l : v]", "{for k, v in o : k => v}", "[for v in l : v if a]",
-		"l[0]", "o.x", "o[\"x\"]", "u.x", "u[\"x\"]", "ul[0]", "%{ for x in ul }${x}%{ endfor }", "a%{ for x in ul }${x}%{ endfor }b", "%{ for x in l }${x.x}%{ endfor }", "\"p${us}\"", "\"${us}${a}\"", "us == \"k\"", "\"${a}\"", "\"x${a}y${b}\"", "%{ if a }yes%{ else }no%{ endif }",
+		"l[0]", "o.x", "o[\"x\"]", "u.x", "u[\"x\"]", "ul[0]", "%{ for x in ul }${x}%{ endfor }", "a%{ for x in ul }${x}%{ endfor }b", "%{ for x in l }${x.x}%{ endfor }", "[for x in dy : x]", "{for k, x in dy : k => x}", "[for x in ul : x]", "{for k, x in l : k => x.x}", "[for x in l : x.x if a]", "\"p${us}\"", "\"${us}${a}\"", "us == \"k\"", "\"${a}\"", "\"x${a}y${b}\"", "%{ if a }yes%{ else }no%{ endif }",
 	)
 	return out
 }
@@ -59,6 +59,7 @@ func TestVerifReplayMarks(t *testing.T) {
 		"u": cty.UnknownVal(cty.Object(map[string]cty.Type{"x": cty.Number})),
 		"ul": cty.UnknownVal(cty.List(cty.Number)),
 		"us": cty.UnknownVal(cty.String),
+		"dy": cty.DynamicVal,
 	}
 	alts := map[string]cty.Value{
 		"a": cty.False, "b": cty.True, "c": cty.False,
@@ -69,6 +70,7 @@ func TestVerifReplayMarks(t *testing.T) {
 		"u": cty.ObjectVal(map[string]cty.Value{"x": cty.NumberIntVal(1)}),
 		"ul": cty.ListVal([]cty.Value{cty.NumberIntVal(1)}),
 		"us": cty.StringVal("k"),
+		"dy": cty.ListVal([]cty.Value{cty.StringVal("k")}),
 	}
 	n, fails := 0, 0
 	for _, src := range verifMarkExprs() {
@@ -120,5 +122,5 @@ func TestVerifReplayMarks(t *testing.T) {
 			}
 		}
 	}
-	fmt.Printf("STANDIN inputs=%d bound=\"%d expressions (binary operators, conditionals, splats, for, index, templates over 3 boolean, 2 collection, 2 nullable and 3 unknown variables), each variable marked in turn (top level and nested), two contents each\"\n", n, len(verifMarkExprs()))
+	fmt.Printf("STANDIN inputs=%d bound=\"%d expressions (binary operators, conditionals, splats, for, index, templates over 3 boolean, 2 collection, 2 nullable and 4 unknown variables), each variable marked in turn (top level and nested), two contents each\"\n", n, len(verifMarkExprs()))
 }
